@@ -292,8 +292,10 @@ package server
 //@   ensures G_closes(multiplexChannel) >= old(G_closes(multiplexChannel))
 
 //@ func (ws *HttpServer) EndpointHandler$1
-// C15: the handler of one websocket peer holds no mutex while it runs that peer's session handshake
+// C15: the handler of one websocket peer holds no mutex while it runs that peer's session handshake (net/http
+// serves every request on a goroutine of its own, so no accept-loop token is held on entry: assumed, library)
 //@   property C15
+//@   requires !G_holds_accept_loop()                        :net_http_serves_each_request_on_its_own_goroutine
 //@   property C01
 //@   property C05, C04, C03
 //@   freevars ws *HttpServer, upstreams Channels
